@@ -377,6 +377,8 @@ structure Profile where
   patchLabels : List (LKey × LStr) := []   -- spec.patch: metadata.labels
   patchPriority : Option Int := none       -- spec.patch: spec.priority
   patchRes : List ResPatch := []           -- spec.patch: container resources (existing container names)
+  probInvalid : Bool := false              -- spec.probability is a string that is not a percentage
+  pcMissing : Bool := false                -- spec.priorityClassName names a PriorityClass that does not exist
 deriving Repr
 
 /-- shouldSkipProfile; `rand` is what `randIntnFn(100)` returns. -/
@@ -444,6 +446,12 @@ def colocationMutate (k : Ranges) (create gateSkipRes : Bool) (rand : Int) (ps :
   let mutated := ms.any (fun pr => !shouldSkipProfile rand pr)
   if ms.any (·.skipRes) || gateSkipRes then (p1, mutated) else
   (mutatePodResourceSpec k p1, mutated || mutatePodResourceSpecFlag k p1)
+
+/-- clusterColocationProfileMutatingPod returns an error (the admission fails, no pod comes out): a
+    matching profile whose probability does not parse (shouldSkipProfile errs before it can skip), or
+    an applied profile whose PriorityClass lookup fails. -/
+def colocationFails (create : Bool) (rand : Int) (ps : List Profile) : Bool :=
+  create && (ps.filter (·.matched)).any (fun pr => pr.probInvalid || (!shouldSkipProfile rand pr && pr.pcMissing))
 
 /-! ### summary annotation -/
 
